@@ -137,23 +137,29 @@ def _dfs_capped(args):
     return n, recs, bad, len(left)
 
 
-def _dfs_all(programs, jobs, chunk=200, cap=None):
+def _dfs_all(programs, jobs, chunk=200, cap=None, budget=None):
     """Bounded-preemption DFS over many programs on ONE process pool.  Returns [(executions, unique records,
     complete?)] per program.
     cap = None: a job explores at most `chunk` executions of its sub-trees of one program and hands the unexplored
     stack entries back (harness.explore._dfs_job), so that big and small programs share the workers evenly.
     cap = n: every program is explored by one worker, depth first, for at most n executions (deterministic prefix of
-    the enumeration; the programs that were cut short are counted)."""
+    the enumeration; the programs that were cut short are counted).
+    budget = n (with cap = None): a program whose executions exceed n is not expanded further (time limit guard)."""
     with mp.get_context("fork").Pool(jobs) as pool:
         if cap is not None:
             res = pool.map(_dfs_capped, [(s_, p, b, cap) for s_, p, b in programs], chunksize=1)
             return [explore._merge([(n, recs, bad)]) + (left == 0,) for n, recs, bad, left in res]
         per = [[] for _ in programs]
+        spent = [0] * len(programs)
+        whole = [True] * len(programs)
         queue = [(i, [[]]) for i in range(len(programs))]
         pending = []
         while queue or pending:
             while queue and len(pending) < 3 * jobs:
                 i, st = queue.pop()
+                if budget is not None and spent[i] >= budget:
+                    whole[i] = False
+                    continue
                 scen, params, bound = programs[i]
                 pending.append((i, pool.apply_async(explore._dfs_job, ((scen, params, bound, st, chunk),))))
             done = [x for x in pending if x[1].ready()]
@@ -165,13 +171,14 @@ def _dfs_all(programs, jobs, chunk=200, cap=None):
                 i, fut = x
                 n, recs, bad, left = fut.get()
                 per[i].append((n, recs, bad))
+                spent[i] += n
                 if left:
                     k = max(1, min(len(left), 4))
                     for j in range(k):
                         part = left[j::k]
                         if part:
                             queue.append((i, part))
-    return [explore._merge(r) + (True,) for r in per]
+    return [explore._merge(r) + (w,) for r, w in zip(per, whole)]
 
 
 def _tlc_design(c, jobs):
@@ -238,8 +245,9 @@ def run(c: checklib.Check):
     programs += [(AR, p, b) for p, b in ar_programs(c.thorough)]
     programs += [(SH, p, b) for p, b in sh_programs(c.thorough)]
     cap = None if c.thorough else 1200
+    budget = 40000 if c.thorough else None
     try:
-        results = _dfs_all(programs, c.jobs, cap=cap)
+        results = _dfs_all(programs, c.jobs, cap=cap, budget=budget)
     except explore.ExploreError as e:
         c.machinery_failure(str(e))
     per_fam = {}
@@ -254,7 +262,8 @@ def run(c: checklib.Check):
         a[2] += len(recs)
     c.note("dfs (debouncer b=%d/%d, tricks b=0..2%s): %d programs, %d executions, %d distinct traces; per family "
            "[programs, executions, traces]: %s" % (bound_deb, bound_deb - 1,
-                                                   "" if cap is None else f"; at most {cap} executions per program, {cut} programs cut short",
+                                                   f"; about {budget} executions per program at most, {cut} programs cut short" if cap is None
+                                                   else f"; at most {cap} executions per program, {cut} programs cut short",
                                                    len(programs), total, len(traces), per_fam))
     # random programs x random / PCT schedules, attribute accesses of the trick as yield points
     nrand = 4000 if c.thorough else 600
@@ -358,6 +367,7 @@ WHAT = {
     "P_C18_NothingAfterStop": "a child was alive when stop() returned, or one was started after stop() had returned",
     "P_C18_HelpersGone": "helper threads (ProcessWatcher / EventDebouncer) left running after stop() returned",
     "P_C18_StopReturns": "deadlock: stop() never returns",
+    "P_C18_ComesToRest": "the execution did not come to rest within the step limit (run-away restart loop)",
     "P_C18_NoException": "an exception escaped from on_any_event / stop() / a helper thread",
     "P_C18_NoOverlapWhenWaitOrDrop": "two shell commands ran at the same time although asked to wait / to drop",
 }
